@@ -107,6 +107,14 @@ def _with_big_ints(p, cfg, h):
     return p
 
 
+def _wild(p, h, rng, res):
+    """Every fifth history draws its names, keys and values from the pool of awkward strings and numbers."""
+    if h % 5 == 4 and p.max_rows <= 45 and len(p.meas) <= 8:
+        gen.make_wild(p, rng)
+        res.count("histories_wild_vocabulary")
+    return p
+
+
 def _cfg_variant(cfg, h):
     """Every third CSV history runs with flush_on_insert=False (reads go through the same buffered handle)."""
     if cfg["storage"] == "csv" and h % 3 == 0:
@@ -131,7 +139,7 @@ def run(res, tier, seed, shard, nshards):
         for ci, cfg in enumerate(CONFIGS):
             for h in range(N_HIST[tier]):
                 rng = rng_for("C07", tier, seed, shard, ci, h)
-                s = HistoryRunner(res, _cfg_variant(cfg, h), scratch, rng, _with_big_ints(profile(h), cfg, h), judge).run()
+                s = HistoryRunner(res, _cfg_variant(cfg, h), scratch, rng, _wild(_with_big_ints(profile(h), cfg, h), h, rng, res), judge).run()
                 if h == 0 and shard == 0 and ci in (0, 3):
                     res.sample({"config": cfg_name(cfg), "first_ops": s.log[:5]})
     contracts.drain(res)
